@@ -29,15 +29,28 @@ def observe(chk, module_rel, cfg_rel, batch: dict, name="obs", workers=1, timeou
         with ThreadPoolExecutor(max_workers=4) as ex:
             outs = list(ex.map(lambda j: observe(chk, module_rel, cfg_rel, parts[j], name="%s_p%d" % (name, j),
                                                  workers=max(1, min(workers, 4)), timeout=timeout), range(len(parts))))
-        merged, res = {}, None
+        merged, res, prints = {}, None, []
         for j, (o, r) in enumerate(outs):
             for tid, v in o.items():
                 merged[j * CHUNK + tid] = v
+            # every observer prints <<"TAG", tid, ...>>: renumber the trace ids of the part
+            for pv in r.prints:
+                if isinstance(pv, tuple) and len(pv) >= 2 and isinstance(pv[0], str) and isinstance(pv[1], int) \
+                        and not isinstance(pv[1], bool):
+                    prints.append((pv[0], j * CHUNK + pv[1]) + tuple(pv[2:]))
+                else:
+                    prints.append(pv)
             res = r
+        import copy as _copy
+        res = _copy.copy(res)
+        res.prints = prints
+        res.generated = sum(r.generated for (_o, r) in outs)
+        res.distinct = sum(r.distinct for (_o, r) in outs)
         return merged, res
     f = _write(chk.work, name, batch)
     res = tlc.run(SPECS / module_rel, SPECS / cfg_rel, workdir=chk.work, workers=workers,
-                  env={"TRACE_FILE": str(f)}, deadlock=False, coverage=False, timeout=timeout)
+                  env={"TRACE_FILE": str(f)}, deadlock=False, coverage=False, timeout=timeout,
+                  jvm_opts=tlc.LIGHT if len(batch["traces"]) <= 2000 else ())
     if res.error or res.violated:
         raise Machinery("observer %s failed: %s %s\n%s" % (module_rel, res.error, res.violated,
                                                            "\n".join(res.stdout.splitlines()[-30:])))
@@ -63,7 +76,8 @@ def conform(chk, module_rel, cfg_rel, batch: dict, name="trace", workers=4, time
     it has matched event l.  Returns {tid: matched_prefix_len} and the TlcResult."""
     f = _write(chk.work, name, batch)
     res = tlc.run(SPECS / module_rel, SPECS / cfg_rel, workdir=chk.work, workers=workers,
-                  env={"TRACE_FILE": str(f)}, deadlock=False, coverage=False, timeout=timeout)
+                  env={"TRACE_FILE": str(f)}, deadlock=False, coverage=False, timeout=timeout,
+                  jvm_opts=tlc.LIGHT if len(batch.get("traces", ())) <= 2000 else ())
     if res.error:
         raise Machinery("trace spec %s failed: %s\n%s" % (module_rel, res.error,
                                                           "\n".join(res.stdout.splitlines()[-30:])))
